@@ -193,7 +193,15 @@ def check_case(case: dict[str, Any], ctx: Any = None) -> list[str]:
                     clear_caches([r_])
                     st_ = random.getstate()
                     try:
-                        a_, b_ = c_.check(t), r_.check(copy.deepcopy(t))
+                        # an exception is an answer too: the long-lived object may raise only if the fresh one does
+                        try:
+                            a_ = c_.check(t)
+                        except Exception as e_:
+                            a_ = f"raises {type(e_).__name__}: {str(e_)[:80]}"
+                        try:
+                            b_ = r_.check(copy.deepcopy(t))
+                        except Exception as e_:
+                            b_ = f"raises {type(e_).__name__}: {str(e_)[:80]}"
                     finally:
                         random.setstate(st_)
                     if a_ != b_:
@@ -241,6 +249,12 @@ def check_case(case: dict[str, Any], ctx: Any = None) -> list[str]:
         except Exception as e:
             if ctx is not None:
                 ctx.count(f"direct_op_raised:{op}:{type(e).__name__}")
+                if op == "eval":
+                    import traceback
+
+                    ctx.notes.setdefault("eval_raised", [])
+                    if len(ctx.notes["eval_raised"]) < 2:
+                        ctx.notes["eval_raised"].append(traceback.format_exc()[-2600:] + " | " + text[:200])
     return msgs
 
 
